@@ -39,5 +39,11 @@ func profiles(rng *rand.Rand, tier string) []c04.Profile {
 		}
 		ps = append(ps, p)
 	}
+	// lookup family (appended, the profiles above keep their random draws): block caches of 1..2 entries, every block
+	// with transactions, deep removals and reorganisations to siblings - what GetTransaction(s) / GetBlock* answer
+	// right after the cache refill (c04/lookups.go)
+	for i, k := 0, 2+n/60; i < k; i++ {
+		ps = append(ps, c04.Profile{Steps: 8 + rng.Intn(6), DeleteBias: 3, ForkBias: 0.8, TinyCache: true, TxHeavy: true, Exhaust: i%2 == 1})
+	}
 	return ps
 }
